@@ -41,11 +41,18 @@ type detProgram struct {
 	XGoDeps   int `json:"xgodeps"`
 	Forced    int `json:"forced"`
 	SameBase  int `json:"samebase"`
+	XGoSame   int `json:"xgosame"`
+	OvRef     int `json:"ovref"`
 }
 
 var detFixtures = map[string]string{
 	"i1": "package i1\nfunc F1() {}\n", "i2": "package i2\nfunc F2() {}\n", "i3": "package i3\nfunc F3() {}\n",
 	"xa": "package xa\nconst XGoPackage = true\ntype T struct{}\n", "xb": "package xb\nconst XGoPackage = true\ntype T struct{}\n", "xc": "package xc\nconst XGoPackage = true\ntype T struct{}\n",
+	"v1/xt": "package xt\nconst XGoPackage = true\ntype T struct{}\n", "v2/xt": "package xt\nconst XGoPackage = true\ntype T struct{}\n", "v3/xt": "package xt\nconst XGoPackage = true\ntype T struct{}\n",
+	// explicit overload families that list another family: Q2 lists Q1 (registered before it), Q0 lists Q1 (registered after it)
+	"ovr1": "package ovr1\nconst XGoPackage = true\nconst XGoo_Q1 = \"Q1Int,Q1Str\"\nfunc Q1Int(x int) {}\nfunc Q1Str(x string) {}\n",
+	"ovr2": "package ovr2\nconst XGoPackage = true\nconst XGoo_Q1 = \"Q1Int,Q1Str\"\nconst XGoo_Q2 = \"Q1,Q2Any\"\nfunc Q1Int(x int) {}\nfunc Q1Str(x string) {}\nfunc Q2Any(x any) {}\n",
+	"ovr3": "package ovr3\nconst XGoPackage = true\nconst XGoo_Q1 = \"Q1Int,Q1Str\"\nconst XGoo_Q2 = \"Q1,Q2Any\"\nconst XGoo_Q0 = \"Q1,Q0Any\"\nfunc Q1Int(x int) {}\nfunc Q1Str(x string) {}\nfunc Q2Any(x any) {}\nfunc Q0Any(x any) {}\n",
 	"z1": "package z1\n", "z2": "package z2\n", "z3": "package z3\n",
 	"ha/tpl": "package tpl\nfunc Ha() {}\n", "tx/tpl": "package tpl\nfunc Tx() {}\n", "um/tpl": "package tpl\nfunc Um() {}\n",
 	"ov": "package ov\nconst XGoPackage = true\nfunc F__0(a int) int { return 0 }\nfunc F__1(a string) int { return 0 }\nfunc G__0(a int) int { return 0 }\nfunc G__1(a string) int { return 0 }\nfunc H__0(a int) int { return 0 }\nfunc H__1(a string) int { return 0 }\n",
@@ -121,9 +128,24 @@ func detBuild(pr detProgram) (string, error) {
 				cb.Val(pkg.Import("ov").Ref(f)).Val("s").Call(1).EndStmt()
 			}
 		}
+		if pr.OvRef > 0 && fi == 0 {
+			ov := pkg.Import(fmt.Sprintf("ovr%d", pr.OvRef))
+			for _, f := range []string{"Q1", "Q2", "Q0"}[:pr.OvRef] {
+				cb.Val(ov.Ref(f)).Val("s").Call(1).EndStmt()
+			}
+		}
 		cb.End()
 	}
 	pkg.SetCurFile("", true)
+	if pr.XGoSame > 0 {
+		var ps []*types.Var
+		for i, x := range []string{"v2/xt", "v1/xt", "v3/xt"} {
+			if i < pr.XGoSame {
+				ps = append(ps, types.NewParam(token.NoPos, pkg.Types, fmt.Sprintf("b%d", i), pkg.Import(x).Ref("T").Type()))
+			}
+		}
+		pkg.NewFunc(nil, "ExportedSame", types.NewTuple(ps...), nil, false).BodyStart(pkg).End()
+	}
 	if pr.SameBase > 0 {
 		pkg.NewFunc(nil, "tpl", nil, nil, false).BodyStart(pkg).End()
 	}
@@ -192,13 +214,13 @@ func runC15(tier, replay string) {
 	}
 	run := ev.Start("C15", tier, "model_checking")
 	var progs []detProgram
-	maxItems := "2"
+	maxItems, maxMix := "2", "3"
 	if tier == "thorough" {
-		maxItems = "3"
+		maxItems, maxMix = "3", "3"
 	}
-	mod := "---- MODULE DetRun ----\nEXTENDS Determinism\nSortedImpl == [c \\in Collections |-> TRUE]\nSortedBug == [c \\in Collections |-> c # \"xgodeps\"]\n====\n"
+	mod := "---- MODULE DetRun ----\nEXTENDS Determinism\nSortedImpl == [c \\in Collections |-> \"total\"]\nSortedBug == [c \\in Collections |-> IF c = \"xgodeps\" THEN \"none\" ELSE \"total\"]\nSortedBug2 == [c \\in Collections |-> IF c \\in {\"xgodeps\", \"xgosame\"} THEN \"bykey\" ELSE \"total\"]\n====\n"
 	cfg := func(sorted string, emit bool) string {
-		s := "INIT Init\nNEXT Next\nCONSTANTS\n  MaxItems = " + maxItems + "\n  Sorted <- " + sorted + "\nINVARIANTS OutputIndependentOfOrder"
+		s := "INIT Init\nNEXT Next\nCONSTANTS\n  MaxItems = " + maxItems + "\n  MaxMix = " + maxMix + "\n  Sorted <- " + sorted + "\nINVARIANTS OutputIndependentOfOrder"
 		if emit {
 			s += " Emit"
 		}
@@ -225,7 +247,15 @@ func runC15(tier, replay string) {
 	if !res2.Violation {
 		run.Infra(fmt.Errorf("vacuity: an unsorted extension-dependency walk is not refuted by TLC"))
 	}
-	run.Set("sabotaged_model_refuted", "Sorted[xgodeps] = FALSE")
+	// a walk sorted by a key on which items tie (package name of same-named extension packages) must be refuted too
+	res3, err := tlc.Run(tlc.Opts{SpecDir: SpecDir, Module: "DetRun", Cfg: cfg("SortedBug2", false), Files: map[string]string{"DetRun.tla": mod}, Workers: 2, Timeout: 10 * time.Minute})
+	if err != nil {
+		run.Infra(err)
+	}
+	if !res3.Violation {
+		run.Infra(fmt.Errorf("vacuity: a dependency walk sorted by package name only is not refuted by TLC"))
+	}
+	run.Set("sabotaged_model_refuted", "Sorted[xgodeps] = none; Sorted[xgosame] = bykey")
 	if replay != "" {
 		var p detProgram
 		if err := loadReplay(replay, &p); err != nil {
@@ -277,6 +307,12 @@ func runC15(tier, replay string) {
 				if p.SameBase > 0 {
 					which = append(which, "samebase")
 				}
+				if p.XGoSame > 1 {
+					which = append(which, "xgosame")
+				}
+				if p.OvRef > 1 {
+					which = append(which, "ovref")
+				}
 				run.Fail("output-differs-between-builds/"+diffKind(first, out), fmt.Sprintf("program %+v: build %d differs from build 1: %s (collections with >= 2 items: %v)", p, k+1, firstDiff(first, out), which), p)
 				break
 			}
@@ -315,7 +351,7 @@ func runC15(tier, replay string) {
 	run.Set("traces_validated_against_impl", builds)
 	run.Set("programs", len(progs))
 	run.Set("builds_per_program", K+2)
-	run.Set("rule", "a case = one program (sizes 0..3 of: imports per file, files, overload families, extension-package dependencies) built K times in-process and in two fresh processes, all files compared byte for byte; distinct = distinct size vector")
+	run.Set("rule", "a case = one program (sizes 0..3 of: imports per file, files, overload families, extension-package dependencies, force-imports, imports sharing a base name, same-named extension dependencies, overload families listing another family; at most 3 collections with items per program) built K times in-process and in two fresh processes, all files compared byte for byte; distinct = distinct size vector")
 	run.Assume("Go randomises map iteration order per range loop: with 3 items 25 repetitions miss an order dependence with probability < 1e-4, with 2 items 2^-24")
 	run.Finish()
 }
